@@ -198,7 +198,9 @@ impl Debugger {
         })>>> ==> <<<read_command(&mut self.command_reader)>>>
 //@sub <<<eval::eval(state, instruction);>>> ==> <<<eval_ext(state, instruction);>>>
 //@sub <<<Output::is_minimal()>>> ==> <<<output_is_minimal()>>>
-//@sub <<<for breakpoint in &self.breakpoints {>>> ==> <<<for breakpoint in &self.breakpoints.0 {>>>
+//@sub <<<for breakpoint in &self.breakpoints {>>> ==> <<<for breakpoint in &self.breakpoints.0
+            invariant true,   // (prints only: nothing to carry; marks the loop as annotated for the undecidability guard)
+        {>>>
         requires
             old(self).status is WaitForAction,
             dbg_wf(*old(self)),
